@@ -17,6 +17,8 @@ def almostEquals (tol : Float) : List (Cmd Float) → List (Cmd Float) → Bool
   | (c1, a1) :: r1, (c2, a2) :: r2 =>
     if c1 != c2 || a1.length != a2.length then false
     else if (a1.zip a2).any (fun (x, y) => tol < Float.abs (x - y)) then false
+    -- the large-arc and sweep flags of an arc are switches, not lengths: `l_args[3:5] != r_args[3:5]`
+    else if (c1 == 'A' || c1 == 'a') && (((a1.drop 3).take 2).zip ((a2.drop 3).take 2)).any (fun (x, y) => x != y) then false
     else almostEquals tol r1 r2
   | _, _ => false
 
@@ -147,9 +149,21 @@ def applyAffine (A : Aff Float) (p : List (Cmd Float)) : Except PyErr (List (Cmd
   SvgPath.reparse r
 
 /-- `_try_affine` -/
-def tryAffine (A : Aff Float) (s1 s2 : List (Cmd Float)) (tol : Float) : Except PyErr Bool := do
-  let s1' ← applyAffine A s1
-  pure (almostEquals tol s1' s2)
+def hasArcLetter (d : String) : Bool := d.toList.any (fun c => c == 'a' || c == 'A')
+
+/-- the path with its arcs as cubics (`SVGPath.arcs_to_cubics()` on a copy, read back through the d string) -/
+def cubicForm (p : List (Cmd Float)) : Except PyErr (List (Cmd Float)) :=
+  Path.print p >>= fun d => SvgPath.arcsToCubics d >>= fun d' => SvgPath.cmdsOf d'
+
+/-- `_try_affine`: command by command on the affine-friendly form, and — when there are arcs, whose radii, rotation
+    and flags are not coordinates — once more on the cubic form of both paths -/
+def tryAffine (A : Aff Float) (s1 s2 : List (Cmd Float)) (tol : Float) : Except PyErr Bool :=
+  applyAffine A s1 >>= fun s1' =>
+  if !almostEquals tol s1' s2 then .ok false else
+  Path.print s1 >>= fun d1 =>
+  if hasArcLetter d1 then
+    cubicForm s1 >>= fun c1 => applyAffine A c1 >>= fun c1' => cubicForm s2 >>= fun c2 => .ok (almostEquals tol c1' c2)
+  else .ok true
 
 def roundAff (A : Aff Float) (n : Nat) : Aff Float := A.map (fun v => F64.pyRound v n)
 
